@@ -9,12 +9,12 @@ import props as P
 HERE = os.path.dirname(os.path.abspath(__file__))
 
 TEXT = {
-    "C01": ("other", "time.format_time proved against its partition contract; the round-trip fixpoint itself is a bounded run-time contract check of Dialect.parse/generate on an enumerated grammar x all dialects", "3 C01"),
+    "C01": ("exploration", "bounded only (time.format_time could not be brought under contract: string joins over symbolic lists time out in every solver): the round-trip fixpoint is a run-time contract check of Dialect.parse/generate on an enumerated grammar x all dialects", "3 C01, 9.1"),
     "C02": ("other", "the NULL-ordering clause proved for all dialect pairs (slice contracts on Parser._parse_ordered and Generator.ordered_sql against the eff_first spec); result equality itself is a bounded run-time contract check of sqlglot.transpile on the real engines (sqlite3 3.40, duckdb 1.5: enumerated query families x 3 NULL-bearing databases x the 4 dialect pairs, plus a MySQL target emulated on DuckDB for the CASE simulation)", "3 C02, 9.6"),
-    "C04": ("other", "encode-side 'cannot terminate its own quoting' decided for all strings by the RegTrans automaton back end on the real replace/escape chains; decode-side lex-back round trip is a bounded exhaustive check (all strings up to a length over a per-dialect adversarial alphabet)", "3 C04"),
-    "C05": ("other", "cursor discipline, index restore, error funnel proved for all states by PyVC; index monotonicity of retreating _parse_* methods by projection-mode VCs; total behaviour on mutated inputs is a bounded step-counted run-time check", "3 C05"),
+    "C04": ("other", "'cannot terminate its own quoting' decided for all strings by the RegTrans automaton back end for comments (sanitize_comment) and quoted identifiers (identifier_sql doubling, 34 dialects) on the real replace chains; escape_str / sanitize_comment / _replace_line_breaks proved to be functions of their arguments (purity frames); string-literal escaping and the decode-side lex-back round trip are a bounded exhaustive check (all strings up to a length over a per-dialect adversarial alphabet)", "3 C04, 9.1"),
+    "C05": ("other", "cursor discipline, index restore, error funnel proved for all states by PyVC; index monotonicity of the retreating _parse_* methods (53 of 77 proved, the rest undecided at a recorded baseline) and progress of the parser's while loops (68 of 94) by projection-mode VCs; total behaviour on mutated and growing inputs is a bounded step-counted run-time check", "3 C05, 9.1"),
     "C06": ("other", "connector / comparison decision tables proved sound in 3VL for all literals; every rewrite step of simplify/normalize checked equivalent under all order-relevant assignments on an exhaustive expression space up to a depth (bounded)", "3 C06"),
-    "C07": ("other", "sep/seg/indent and the sentinel clause proved, with a frame scan that the layout options are stored only in Generator.__init__; option product parse-back is a bounded run-time contract check", "3 C07"),
+    "C07": ("other", "sep, maybe_comment and indent (slices) and the sentinel restoration in generate proved, with a frame scan that the layout options are stored only in Generator.__init__; sentinel replacement decided for all strings by RegTrans; option product parse-back is a bounded run-time contract check", "3 C07"),
     "C08": ("other", "link invariant and hash-invalidation of all ancestors proved for Expression.set/append/_set_parent/replace/pop for all heaps (PyVC, 490+ VCs); all operation sequences up to a length on small trees checked at run time (bounded)", "3 C08"),
     "C09": ("other", "copy=True => modifies only fresh objects proved for the copy funnels; fingerprint-unchanged checked at run time on corpus x functions x dialects (bounded)", "3 C09"),
     "C10": ("other", "normalize_identifier idempotent and case-sensitive identifiers untouched proved for all strategies; qualify postcondition + idempotence bounded", "3 C10"),
@@ -22,10 +22,10 @@ TEXT = {
     "C12": ("other", "bounded only: dump/load/json/pickle/copy round trip on every node class x arg kinds and the corpus", "3 C12"),
     "C13": ("other", "tokenizer _advance/_add offset and line/col consistency, raise_error position transfer proved; token order/gap/position relation on enumerated layouts bounded", "3 C13"),
     "C14": ("other", "the whole error-level relation at the funnel (raise_error, validate_expression, check_errors, _try_parse, concat_messages, Generator.unsupported/generate tail) proved for all states, plus mechanical frame scans that error_level / unsupported_level are read nowhere else; four-run relation end to end bounded", "3 C14"),
-    "C15": ("other", "reused Parser/Tokenizer == fresh one proved by comparing reset() with __init__ symbolically; generator per-call frame scan; MappingSchema.find answers independent of earlier strict / lenient questions proved; hash-seed / call-order relation in subprocesses bounded", "3 C15"),
+    "C15": ("other", "reused Parser/Tokenizer == fresh one by mechanical frame scans comparing reset() with __init__ (syntactic) and a proved fresh-state assertion at TokenizerCore.tokenize; generator per-call frame scan; MappingSchema.find answers independent of earlier strict / lenient questions proved; hash-seed / call-order relation in subprocesses bounded", "3 C15"),
     "C17": ("exploration", "bounded only: lineage leaves == construction-recorded flow on an enumerated query family; three presentation invariances", "3 C17"),
     "C18": ("other", "cache coherence of MappingSchema.find/add_table w.r.t. the abstract view proved (PyVC); all interleavings up to a length vs a freshly built schema bounded", "3 C18"),
-    "C20": ("other", "accounting invariant of the diff matcher and edit-script generator proved whatever the similarity heuristics return; delta-empty <=> equal on edited pairs bounded", "3 C20"),
+    "C20": ("other", "accounting invariant of the leaf matcher's greedy loop (a node is matched at most once and leaves the unmatched sets exactly when matched, whatever the similarity heuristics return) and class equality of _is_same_type proved; accounting of the generated edit script and delta-empty <=> equal on edited pairs bounded", "3 C20"),
 }
 
 NOTE = ("Trusted: the PyVC encoding of Python semantics (DESIGN.md 2.1, 6), declared-opaque callees and assumed field types listed in the evidence, "
